@@ -1099,7 +1099,7 @@ impl Scenario for C13 {
     }
     fn runs(&self, tier: Tier) -> u64 {
         match tier {
-            Tier::Quick => 1200,
+            Tier::Quick => 700,
             Tier::Thorough => 40_000,
         }
     }
